@@ -922,6 +922,17 @@ class Interp:
         if left['k'] == 'PWild' or (left['k'] == 'Path' and left['path']['str'] == '_'):
             return UNIT
         place = self.eval_place(left)
+        if isinstance(v, Opaque) and v.tag == 'Collected':
+            # `place = iter.collect()`: the target type is that of the place; take it from the value it holds now
+            try:
+                old = self.deref(place)
+            except Exception:
+                old = None
+            ty = {RVec: 'Vec<_>', RSet: 'HashSet<_>', RMap: 'HashMap<_>'}.get(type(old))
+            if ty is not None:
+                if isinstance(old, (RSet, RMap)) and old.ordered:
+                    ty = 'BTree' + ty[4:]
+                v = self.lib.collect_as(v, ty)
         self.store_at(place, v)
         return UNIT
 
